@@ -1052,6 +1052,12 @@ func streamCodec(g *core.G) {
 
 // genFieldText: text for a field as it would appear in a file, mostly valid
 func genFieldText(r *core.Rand, f reflect.StructField) string {
+	switch f.Type.Kind() {
+	case reflect.Int, reflect.Uint, reflect.Bool:
+		if r.Chance(1, 6) {
+			return "" // an empty numeric / boolean field is the zero value (also in a struct decoded into before)
+		}
+	}
 	if r.Chance(1, 12) {
 		return r.Pick([]string{"", "x y", "-1", "99999999999999999999", "yes", "no", "1 2", "a,b", "é", "+5"})
 	}
